@@ -7,6 +7,7 @@
 package c16
 
 import (
+	"errors"
 	"fmt"
 	"sort"
 	"strconv"
@@ -44,14 +45,20 @@ type delivery struct {
 
 // fakeSession implements session.IClientSession and records every Push.
 type fakeSession struct {
-	id uint32
-	fe *frontEnd
+	id     uint32
+	fe     *frontEnd
+	closed bool // the socket has closed but the session is still registered: Push fails
 }
+
+var errClosed = errors.New("session closed")
 
 func (f *fakeSession) Reserve()        {}
 func (f *fakeSession) GetId() uint32   { return f.id }
 func (f *fakeSession) SetId(id uint32) { f.id = id }
 func (f *fakeSession) Push(route string, v interface{}) error {
+	if f.closed {
+		return errClosed
+	}
 	var data []byte
 	switch d := v.(type) {
 	case []byte:
@@ -64,7 +71,7 @@ func (f *fakeSession) Push(route string, v interface{}) error {
 }
 func (f *fakeSession) ResponseMID(mid uint, v interface{}, e error) error { return nil }
 func (f *fakeSession) Close()                                             {}
-func (f *fakeSession) IsClosed() bool                                     { return false }
+func (f *fakeSession) IsClosed() bool                                     { return f.closed }
 
 type pushTuple struct {
 	front string
@@ -435,7 +442,7 @@ func guarded(ws []string) string {
 			w.b.deliveries = nil
 		}
 		// `at=b` on a session operation addresses the second front-end service
-		if ws[0] == "sadd" || ws[0] == "sdel" || ws[0] == "spush" || ws[0] == "syspush" {
+		if ws[0] == "sadd" || ws[0] == "sdel" || ws[0] == "sclose" || ws[0] == "spush" || ws[0] == "syspush" {
 			if at, has := hx.KV(ws, "at"); has {
 				switch {
 				case at == "a":
@@ -701,6 +708,16 @@ func guarded(ws []string) string {
 				return "missing " + after
 			}
 			return "ok " + after
+		case "sclose":
+			id, ok := u32(ws, "id")
+			if !ok {
+				return "bad-op"
+			}
+			if fs := w.cur.fakes[id]; fs != nil {
+				fs.closed = true
+				return "ok " + w.live()
+			}
+			return "missing " + w.live()
 		case "spush", "syspush":
 			ids, ok1 := idList(ws)
 			route, ok2 := hx.KV(ws, "route")
@@ -938,6 +955,10 @@ func (g *gen) op() string {
 	case x < 91:
 		return g.sessCbOp()
 	case x < 92:
+		if r.Intn(3) == 0 {
+			h.Count("op.sclose")
+			return fmt.Sprintf("sclose id=%d", 1+r.Intn(8))
+		}
 		h.Count("op.sdel")
 		return fmt.Sprintf("sdel id=%d", 1+r.Intn(8))
 	case x < 93:
@@ -1106,6 +1127,77 @@ func twoFrontCase(h *hx.T, g *gen, run func(string), idx int) {
 	run("bcast ch=a route=end msg=fin")
 	run("bcast ch=b route=end msg=fin")
 	h.Count("case.two-front-ends")
+}
+
+// closedCase: registered connections whose Push fails (socket closed, not yet removed) listed at
+// the first, a middle and the last position of multi-id pushes and among the local members of a broadcast.
+func closedCase(h *hx.T, g *gen, run func(string), idx int) {
+	r := h.R
+	g.slots, g.slotN = nil, 0
+	at := ""
+	if idx%4 == 3 {
+		run("reset local=f1 second=f2")
+		at = " at=b"
+	} else {
+		run("reset local=f1")
+	}
+	n := 3 + r.Intn(4)
+	for i := 0; i < n; i++ {
+		run("sadd" + at)
+	}
+	live := make([]uint32, n)
+	for i := range live {
+		live[i] = uint32(2 + i)
+	}
+	dead := live[r.Intn(n)]
+	run(fmt.Sprintf("sclose id=%d%s", dead, at))
+	var others []uint32
+	for _, v := range live {
+		if v != dead {
+			others = append(others, v)
+		}
+	}
+	r.Shuffle(len(others), func(i, j int) { others[i], others[j] = others[j], others[i] })
+	for pos, name := range []string{"first", "middle", "last"} {
+		ids := append([]uint32(nil), others...)
+		var k int
+		switch pos {
+		case 0:
+			k = 0
+		case 1:
+			k = 1 + r.Intn(len(ids)-1)
+		default:
+			k = len(ids)
+		}
+		ids = append(ids[:k:k], append([]uint32{dead}, ids[k:]...)...)
+		kind := "spush"
+		if r.Intn(2) == 0 {
+			kind = "syspush"
+		}
+		h.Count("closed.listed-" + name)
+		run(fmt.Sprintf("%s ids=%s route=c%d data=%s%s", kind, showIds(ids), pos, hx.Hex(h.Bytes(r.Intn(3))), at))
+	}
+	// a broadcast whose members on that front include the closed connection in the middle
+	front := "f1"
+	if at != "" {
+		front = "f2"
+	}
+	mem := append([]uint32(nil), others...)
+	k := r.Intn(len(mem) + 1)
+	mem = append(mem[:k:k], append([]uint32{dead}, mem[k:]...)...)
+	for _, v := range mem {
+		run(fmt.Sprintf("join ch=a front=%s id=%d", front, v))
+	}
+	run("bcast ch=a route=cb msg=m1")
+	if r.Intn(2) == 0 { // a second one closes, then the first is finally removed
+		run(fmt.Sprintf("sclose id=%d%s", others[0], at))
+		run("bcast ch=a route=cb msg=m2")
+	}
+	run(fmt.Sprintf("sdel id=%d%s", dead, at))
+	run(g.pushOp("spush") + at)
+	run("bcast ch=a route=cb msg=m3")
+	run(fmt.Sprintf("sclose id=%d%s", 20+r.Intn(3), at))
+	h.Count("case.closed-connections")
 }
 
 // raceCase: membership operations of another goroutine landing while a broadcast is in flight
@@ -1373,6 +1465,9 @@ func TestRun(t *testing.T) {
 	}
 	for i, k := 0, hx.EnvInt("VERIF_TWO", 60); i < k; i++ {
 		twoFrontCase(h, g, run, i)
+	}
+	for i, k := 0, hx.EnvInt("VERIF_CLOSED", 60); i < k; i++ {
+		closedCase(h, g, run, i)
 	}
 	for i, k := 0, hx.EnvInt("VERIF_RACE", 40); i < k; i++ {
 		raceCase(h, g, run)
